@@ -205,7 +205,7 @@ def rule_3(ctx):
                         if isinstance(obj, ast.ClassDef):
                             ctx.bad(node, 'discarded argument tuple after storing a class',
                                     'an expression statement holds the constructor arguments that were meant for the class stored above')
-    ctx.floor(8, 'stores into a cells map')
+    ctx.floor(5, 'stores into a cells map')
 
 
 def _name_indirection(ctx, fn):
